@@ -48,4 +48,13 @@ Theorem C10_ok : forall c h,
   0 <= rate c -> 0 <= cap c -> Spec.C10.sorted h -> Spec.C10.ok c (run c [] h) = true.
 Proof. exact C10_proofs.ok_model. Qed.
 Print Assumptions C10_ok.
+
+(* tie to the code: the definition regenerated from TokenBucket.consume (coq/Gen/PyGen.v) computes Model.Bucket.consume *)
+From NV Require Gen.PyGen Equiv.Equiv.
+Theorem C10_code_tie : forall capq rateq tok lst now,
+  PyGen.gen_consume capq rateq tok lst now (inject_Z 1) =
+  let (ok, b) := consume {| cap := capq; rate := rateq |} now {| tokens := tok; last := lst |} in (ok, tokens b, last b).
+Proof. exact Equiv.consume_tie. Qed.
+Print Assumptions C10_code_tie.
+
 Close Scope Q_scope.
